@@ -147,7 +147,7 @@ def run(R, tier, seed, driver_ok):
             elif rng.rand() < 0.4:
                 # a class smaller than k: clipping of k must stay local to that class
                 small = int(np.unique(y)[0]); keep = np.ones(n, bool)
-                idx = np.nonzero(y == small)[0]; keep[idx[2:]] = False
+                idx = np.nonzero(y == small)[0]; keep[idx[int(rng.choice([1, 2])):]] = False     # two members, or a single one
                 order = np.argsort(y != small, kind='stable')          # the small class comes first
                 Xl, yl = X[keep], y[keep]
                 o2 = np.argsort(yl != small, kind='stable'); Xl, yl = Xl[o2], yl[o2]
